@@ -34,6 +34,119 @@ fn oracle_selftest(depth: usize) -> Result<(), String> {
     }
 }
 
+const FUZZED: [&str; 5] = ["C03", "C04", "C05", "C12", "C16"];
+
+struct FuzzOutcome {
+    executions: u64,
+    coverage: u64,
+    corpus: u64,
+    secs: f64,
+    artifact: Option<String>,
+    message: String,
+}
+
+/// Coverage-guided campaign on the generator-free board-history target (thorough tiers):
+/// WORKERS independent libFuzzer processes (own corpus directory, seed VERIF_SEED + i), fixed runs.
+fn run_fuzz(id: &str, env: &Env) -> FuzzOutcome {
+    const WORKERS: u64 = 12;
+    let bin = "/verif/target/fuzz/x86_64-unknown-linux-gnu/release/board_history";
+    if !std::path::Path::new(bin).exists() {
+        eprintln!("INCONCLUSIVE: {} not built", bin);
+        std::process::exit(2);
+    }
+    let runs: u64 = ((100_000.0 * env.scale) as u64).max(500);
+    let _ = std::fs::create_dir_all("/verif/replays/found");
+    let t = Instant::now();
+    let mut children = Vec::new();
+    for w in 0..WORKERS {
+        let corpus = format!("/verif/target/fuzz-corpus/{}-{}-{}", id, std::process::id(), w);
+        let _ = std::fs::remove_dir_all(&corpus);
+        let _ = std::fs::create_dir_all(&corpus);
+        let child = std::process::Command::new(bin)
+            .env("VERIF_FUZZ_PROPERTY", id)
+            .arg(&corpus)
+            .arg("/verif/corpus/fuzz")
+            .arg(format!("-runs={}", runs))
+            .arg(format!("-seed={}", ((env.seed + w * 7919) % 0xFFFF_FFFF).max(1)))
+            .args(["-len_control=0", "-max_len=512", "-print_final_stats=1", "-timeout=120", "-rss_limit_mb=4096"])
+            .arg(format!("-artifact_prefix=/verif/replays/found/fuzz-{}-", id))
+            .stdout(std::process::Stdio::null())
+            .stderr(match std::fs::File::create(format!("{}.log", corpus)) {
+                Ok(f) => std::process::Stdio::from(f),
+                Err(_) => std::process::Stdio::null(),
+            })
+            .spawn();
+        match child {
+            Ok(c) => children.push((c, corpus)),
+            Err(e) => {
+                eprintln!("INCONCLUSIVE: cannot start the fuzz target: {}", e);
+                std::process::exit(2);
+            }
+        }
+    }
+    let mut total = FuzzOutcome {
+        executions: 0,
+        coverage: 0,
+        corpus: 0,
+        secs: 0.0,
+        artifact: None,
+        message: String::new(),
+    };
+    for (c, corpus) in children {
+        let mut c = c;
+        let status = match c.wait() {
+            Ok(o) => o,
+            Err(e) => {
+                eprintln!("INCONCLUSIVE: fuzz worker lost: {}", e);
+                std::process::exit(2);
+            }
+        };
+        let text = std::fs::read_to_string(format!("{}.log", corpus)).unwrap_or_default();
+        let _ = std::fs::remove_file(format!("{}.log", corpus));
+        let grab = |key: &str| -> u64 {
+            text.lines()
+                .rev()
+                .find_map(|l| l.find(key).map(|i| l[i + key.len()..].trim().split_whitespace().next().unwrap_or("0").to_string()))
+                .and_then(|v| v.parse().ok())
+                .unwrap_or(0)
+        };
+        total.executions += grab("stat::number_of_executed_units:");
+        total.coverage = total.coverage.max(grab(" cov: "));
+        total.corpus += std::fs::read_dir(&corpus).map(|d| d.count() as u64).unwrap_or(0);
+        let _ = std::fs::remove_dir_all(&corpus);
+        if !status.success() && total.artifact.is_none() {
+            let mut artifact = None;
+            let mut message = String::new();
+            for l in text.lines() {
+                if let Some(i) = l.find("Test unit written to ") {
+                    artifact = Some(l[i + 21..].trim().to_string());
+                }
+                if l.contains("VIOLATION") && !message.contains("VIOLATION") {
+                    message = l.trim().to_string();
+                } else if l.contains("panicked at") && message.is_empty() {
+                    message = l.trim().to_string();
+                }
+            }
+            match artifact {
+                None => {
+                    eprintln!("INCONCLUSIVE: fuzz worker failed without a crash artifact:\n{}", text.lines().rev().take(30).collect::<Vec<_>>().join("\n"));
+                    std::process::exit(2);
+                }
+                Some(a) if a.contains("timeout-") || a.contains("oom-") => {
+                    eprintln!("INCONCLUSIVE: fuzz worker hit a timeout/oom: {}", a);
+                    std::process::exit(2);
+                }
+                Some(a) => {
+                    total.artifact = Some(a);
+                    total.message = message;
+                }
+            }
+        }
+    }
+    total.secs = t.elapsed().as_secs_f64();
+    total
+}
+
 fn main() {
     let args: Vec<String> = std::env::args().skip(1).collect();
     if args.is_empty() {
@@ -70,14 +183,38 @@ fn main() {
 
     if args[1] == "--replay" {
         let path = args.get(2).cloned().unwrap_or_else(|| usage());
-        let text = std::fs::read_to_string(&path).unwrap_or_else(|e| {
+        let bytes = std::fs::read(&path).unwrap_or_else(|e| {
             eprintln!("cannot read {}: {}", path, e);
             std::process::exit(2)
         });
-        let v: Value = serde_json::from_str(&text).unwrap_or_else(|e| {
-            eprintln!("bad replay file: {}", e);
-            std::process::exit(2)
-        });
+        let parsed: Option<Value> = std::str::from_utf8(&bytes).ok().and_then(|t| serde_json::from_str(t).ok());
+        let v: Value = match parsed {
+            Some(v) if v.get("check").is_some() => v,
+            _ => {
+                // a libFuzzer artifact: raw bytes for the board-history target
+                if !FUZZED.contains(&id.as_str()) {
+                    eprintln!("bad replay file for {}", id);
+                    std::process::exit(2);
+                }
+                match no_panic(|| chess_verif::fuzz::check(&bytes, &id)) {
+                    Ok(Ok(())) => {
+                        println!("replay passed: {}", path);
+                        std::process::exit(0)
+                    }
+                    Ok(Err(f)) => {
+                        println!("replay failed: {}", f.msg);
+                        println!("history: {}", chess_verif::fuzz::decode(&bytes).map(|h| chess_verif::history::describe(&h).to_string()).unwrap_or_default());
+                        println!("VIOLATION property={} replay={}", id, path);
+                        std::process::exit(1)
+                    }
+                    Err(m) => {
+                        println!("replay failed: panic: {}", m);
+                        println!("VIOLATION property={} replay={}", id, path);
+                        std::process::exit(1)
+                    }
+                }
+            }
+        };
         let check = v["check"].as_str().unwrap_or("");
         let c = spec.checks.iter().find(|c| c.name() == check).unwrap_or_else(|| {
             eprintln!("replay file names check {:?} which {} does not have", check, id);
@@ -177,7 +314,15 @@ fn main() {
     // 2. the checks
     let mut per_check = serde_json::Map::new();
     if violation.is_none() {
+        // VERIF_ONLY=<substring> restricts a run to some sub-checks (experiments only; the
+        // registered commands never set it)
+        let only = std::env::var("VERIF_ONLY").ok();
         for c in &spec.checks {
+            if let Some(o) = &only {
+                if !c.name().contains(o.as_str()) {
+                    continue;
+                }
+            }
             let tc = Instant::now();
             let mut st = Stats::default();
             let v = c.run(&env, &mut st);
@@ -201,6 +346,29 @@ fn main() {
         }
     }
 
+    // 3. coverage-guided fuzzing of the generator-free history target (thorough tiers)
+    let mut fuzz_json = Value::Null;
+    if violation.is_none() && tier == Tier::Thorough && FUZZED.contains(&id.as_str()) {
+        let f = run_fuzz(&id, &env);
+        eprintln!(
+            "[{}/fuzz board_history] {} executions, cov {}, corpus {}, {:.1}s",
+            id, f.executions, f.coverage, f.corpus, f.secs
+        );
+        stats.count("fuzz_executions", f.executions);
+        fuzz_json = json!({"target": "board_history", "executions": f.executions, "final_coverage_edges": f.coverage, "final_corpus_files": f.corpus, "wall_s": f.secs});
+        if let Some(a) = f.artifact {
+            violation = Some((
+                Violation {
+                    check: "fuzz/board_history".into(),
+                    msg: f.message,
+                    case: json!({"artifact": a}),
+                    detail: Value::Null,
+                },
+                a,
+            ));
+        }
+    }
+
     let wall = t0.elapsed().as_secs_f64();
     write_evidence(
         &id,
@@ -210,7 +378,7 @@ fn main() {
         &spec.assumptions,
         wall,
         if violation.is_some() { 1 } else { 0 },
-        json!({"per_check": per_check}),
+        json!({"per_check": per_check, "fuzz": fuzz_json}),
     );
     match violation {
         Some((v, path)) => {
